@@ -873,6 +873,16 @@ def explore_scenarios(scenarios, judge, budgets_of, want=48, max_execs=None):
             account(part, scn, ch, x)
             judge(part, scn, x)
 
+        if scn.get('prune'):
+            # pruning needs one visited-state table per scenario: explore the
+            # whole tree in this process
+            _VISITED.clear()
+            n, capped = explore.explore(run, budgets_of(scn), on_exec,
+                                        max_execs=max_execs)
+            if capped:
+                part['caps'].append(f'scenario {scn["name"]}: capped at '
+                                    f'{n} executions')
+            return part, []
         open_, n = explore.frontier(run, budgets_of(scn), on_exec, want=want)
         return part, [(idx, p) for p in open_]
 
@@ -897,7 +907,10 @@ def explore_scenarios(scenarios, judge, budgets_of, want=48, max_execs=None):
                 f'scenario {scn["name"]}: subtree capped at {n} executions')
         return part
 
-    r1 = common.pmap(stage1, list(range(len(scenarios))), init=_init_worker)
+    order = sorted(range(len(scenarios)),
+                   key=lambda i: (-budgets_of(scenarios[i]).get('sched', 0),
+                                  -len(scenarios[i]['input'])))
+    r1 = common.pmap(stage1, order, init=_init_worker)
     parts = [p for p, _ in r1]
     work = [w for _, ws in r1 for w in ws]
     # interleave scenarios for load balance
